@@ -157,6 +157,12 @@ fn families() -> Vec<Family> {
         fam("HashSet<i32>", HashSet::from([1i32]), Some(tc_of::<HashSet<i32>>)),
         fam("BTreeSet<String>", BTreeSet::from([s()]), Some(tc_of::<BTreeSet<String>>)),
         fam("HashMap<String,i32>", HashMap::from([(s(), 1i32)]), Some(tc_of::<HashMap<String, i32>>)),
+        // the same carriers holding no element
+        fam("empty:HashSet<i32>", HashSet::<i32>::new(), Some(tc_of::<HashSet<i32>>)),
+        fam("empty:BTreeSet<String>", BTreeSet::<String>::new(), Some(tc_of::<BTreeSet<String>>)),
+        fam("empty:Vec<i32>", Vec::<i32>::new(), Some(tc_of::<Vec<i32>>)),
+        fam("empty:HashMap<String,i32>", HashMap::<String, i32>::new(), Some(tc_of::<HashMap<String, i32>>)),
+        fam("empty:BTreeMap<i32,String>", BTreeMap::<i32, String>::new(), Some(tc_of::<BTreeMap<i32, String>>)),
         fam("BTreeMap<i32,String>", BTreeMap::from([(1i32, s())]), Some(tc_of::<BTreeMap<i32, String>>)),
         fam("(i32,String)", (1i32, s()), Some(tc_of::<(i32, String)>)),
         fam("(i32,)", (1i32,), Some(tc_of::<(i32,)>)),
